@@ -58,6 +58,8 @@ def snapshot(tracks):
 
 
 def check_one(mido, specs, acc, via_file):
+    if acc.evals % 97 == 0:
+        failed_merge(mido, acc)
     tracks = [build_track(mido, ti, sp) for ti, sp in enumerate(specs)]
     exp, total = expected(tracks)
     snap = snapshot(tracks)
@@ -146,9 +148,27 @@ def check_one(mido, specs, acc, via_file):
         acc.nontrivial += 1
 
 
+def failed_merge(mido, acc):
+    """A merge that raises part-way (a message that does not pass the checks
+    in the second track) must leave nothing behind for later merges."""
+    good = build_track(mido, 0, (('note', 1), ('tempo', 2)))
+    bad = mido.MidiTrack([mido.Message('note_on', note=5, time=1),
+                          mido.Message('note_on', note=300, time=1,
+                                       skip_checks=True)])
+    acc.evals += 1
+    for tracks in ([good, bad], [bad, good], [bad]):
+        try:
+            mido.merge_tracks(tracks)
+        except Exception:
+            acc.count('failed_merges')
+        else:
+            pass       # accepting it is not this property's business
+
+
 def worker(shard):
     mido = common.import_mido()
     acc = Acc()
+    failed_merge(mido, acc)
     kind = shard[0]
     if kind == 'one':
         first, n = shard[1], shard[2]
